@@ -274,7 +274,7 @@ def _feasible_by_guess(pc, inputs, tries=6):
     ints = [(k, e) for k, e in inputs.items() if not k.endswith("#fac") and z3.is_expr(e) and e.sort() == z3.IntSort() and not k.startswith("u_")]
     for t in range(tries + 2):
         s = z3.Solver()
-        s.set("timeout", 8000 if t < 2 or t >= tries else 3000)       # idle: ~0.1 s when satisfiable
+        s.set("timeout", 30000 if t < 2 or t >= tries else 10000)     # idle: 0.1 - 4 s when satisfiable; generous, only failing clauses get here
         s.add(*pc)
         for k, e in facs:
             vals = sorted(set(v for u, v in spec.SI_TABLE.get(e.decl().name()[4:], {}).items() if u not in ("Ndm", "Ncm", "Nmm")))
@@ -378,6 +378,15 @@ def _discharge(pc, goal, inputs, timeout_ms=10000, fallbacks=True):
             if ans == "sat":
                 # no model extraction from the CLI: candidate only
                 return dict(status="refuted", backend=name, time_s=time.time() - t0, model={})
+    # last resort before "undecided": look for a counter-model with every symbolic unit fixed to a real unit (and then the
+    # integer inputs fixed): the strengthened formula is (nearly) linear; a model of it is a model of pc and not(goal)
+    try:
+        gm = _feasible_by_guess(list(pc) + [z3.Not(g)], inputs)
+    except z3.Z3Exception:
+        gm = None
+    if gm is not None:
+        return dict(status="refuted", backend="z3-5.1(api, guessed units)", time_s=time.time() - t0,
+                    model=model_dict(gm, inputs), units_realizable=True)
     d = os.environ.get("PYCV_DUMP_UNDECIDED")
     if d:
         os.makedirs(d, exist_ok=True)
